@@ -103,7 +103,7 @@ PROPS['C09'] = dict(
     rule='family rm: random add/reserve/release/merge/register sequences (zero, negative, unknown entries; before and '
          'after initialisation; callbacks that reserve/release/register); non-trivial = a scenario with at least one '
          'refused or failing operation; distinct by scenario text',
-    assumptions=['request dictionaries have distinct keys; merge is given two distinct reservations',
+    assumptions=['request dictionaries have distinct keys (WFOp); merging a reservation with itself is a no-op (F11)',
                  'amounts are integers (no float rounding)'],
 )
 PROPS['C10'] = dict(
@@ -125,13 +125,12 @@ PROPS['C12'] = dict(
     monitors=M.MONITORS['C12'],
     nontrivial=has(('rec start_work_order',)),
     stats=op_stats, divergence_is_witness=True,
-    divergence_text='C12 fixes acceptance, start order, durations, hooks and costs; the model is proved to meet the '
-                    'bookkeeping part and mirrors the event glue',
+    divergence_text='C12 fixes acceptance, start order, durations, hooks and costs; the model is proved to meet it '
+                    '(C12.lean: bookkeeping for every operation sequence; C12W.lean: exact_duration, hookLog_reachable, '
+                    'hook_counts, nothing_startable_reachable in every reachable world)',
     rule='family maint: random request streams over fake Maintainable targets (duplicates, bursts, needed 0 / above '
          'total, duration 0, requests from inside hooks); non-trivial = at least one order started; distinct by text',
     assumptions=['needed capacities >= 0', 'only the maintainer\'s own events carry its asset id'],
-    partial=['duration_exact / hooks_once: the event glue (World.startWork/finishWork) is mirrored and checked by '
-             'correspondence and monitor, not stated as a theorem'],
 )
 import c12 as _c12
 PROPS['C12']['extra'] = _c12.prestart_orders
@@ -243,7 +242,8 @@ PROPS['C11'] = floor_prop(
     ('rec resource_update',), 'non-trivial = a pool changed',
     families=[('floorp', 120, 2500), ('floorm', 80, 1500), ('floorc', 60, 1000)])
 PROPS['C13'] = floor_prop(
-    'C13', ['SimProc.Props.C13', 'SimProc.Props.C06W'], ['SimProc/Props/C13.lean', 'SimProc/Props/C06W.lean'],
+    'C13', ['SimProc.Props.C13', 'SimProc.Props.C06W', 'SimProc.Props.C06T', 'SimProc.Props.C13W'],
+    ['SimProc/Props/C13.lean', 'SimProc/Props/C06W.lean', 'SimProc/Props/C06T.lean', 'SimProc/Props/C13W.lean'],
     {'d': _c.fields('part', 'out', 'down', 'up', 'use'), 'res': _c.only(('shut', 'restored', 'hook')),
      'rec': _c.only(('device_failure',)), 'now': None},
     ('rec device_failure', 'res shut'), 'implementation traces are produced with the deep-copy probe (a finished part kept through '
@@ -313,3 +313,13 @@ PROPS['C06'] = floor_prop(
     ('rec received_part',), 'non-trivial = a part was accepted by a device',
     families=[('floor', 100, 2000), ('floorc', 50, 1000), ('floors', 150, 3000), ('floorq', 60, 1000)],
     impl_only_families=[('floorr', 80, 1500)])
+
+
+# Every property whose theorems cite an event priority or a schedule site also builds and audits the obligations over
+# the facts regenerated from /repo's sources (Props/Facts.lean: prio_table, lt_chain, release_pass_finish_order,
+# schedule_sites, ...): a reordering of EventType in /repo then breaks a proof obligation of each of them.
+for _p in ('C01', 'C03', 'C04', 'C10', 'C11', 'C15', 'C20'):
+    if 'SimProc.Props.Facts' not in PROPS[_p]['modules']:
+        PROPS[_p]['modules'] = PROPS[_p]['modules'] + ['SimProc.Props.Facts']
+    if 'SimProc/Props/Facts.lean' not in PROPS[_p]['prop_files']:
+        PROPS[_p]['prop_files'] = PROPS[_p]['prop_files'] + ['SimProc/Props/Facts.lean']
